@@ -21,6 +21,9 @@ use crate::{Finding, Worker};
 
 pub struct Keyer {
     memo: RwLock<HashMap<(u64, u64), String>>,
+    /// key -> a minimal concrete witness (zone beyond the implied apex SOA/NS, message); when
+    /// several cases minimise to the same key the textually smallest witness is kept
+    witnesses: RwLock<HashMap<String, String>>,
 }
 
 fn origin() -> Labels {
@@ -99,7 +102,7 @@ fn relevant(pre: &Snap, msg: &Msg) -> Snap {
 
 impl Keyer {
     pub fn new() -> Keyer {
-        Keyer { memo: RwLock::new(HashMap::new()) }
+        Keyer { memo: RwLock::new(HashMap::new()), witnesses: RwLock::new(HashMap::new()) }
     }
 
     pub fn key(&self, w: &Worker, f: &Finding, pre: &Snap, msg: &Msg) -> String {
@@ -115,6 +118,22 @@ impl Keyer {
         let key = self.compute(w, f, pre, &sub, msg);
         self.memo.write().unwrap().insert(k0, key.clone());
         key
+    }
+
+    /// The minimal concrete witness recorded for `key` (JSON text), if any.
+    pub fn witness(&self, key: &str) -> Option<serde_json::Value> {
+        self.witnesses.read().unwrap().get(key).and_then(|s| serde_json::from_str(s).ok())
+    }
+
+    fn record_witness(&self, key: &str, zone: &Snap, msg: &Msg) {
+        let j = serde_json::json!({"zone": zone.text(), "message": msg.text(), "zone_json": zone.to_json(), "message_json": msg.to_json()}).to_string();
+        let mut g = self.witnesses.write().unwrap();
+        match g.get(key) {
+            Some(old) if *old <= j => {}
+            _ => {
+                g.insert(key.to_string(), j);
+            }
+        }
     }
 
     fn fails(&self, w: &Worker, f: &Finding, zone: &Snap, msg: &Msg) -> bool {
@@ -223,9 +242,13 @@ impl Keyer {
         if f.clause == "serial" && f.detail == "exp=stay obs=advanced" && msg.updates.len() >= 2 && cancels_out(&zone, &msg) {
             // one root cause by construction: the message as a whole leaves the content as it was,
             // but a proper prefix of its update section changes it
-            return format!("{}{}:intermediate-changes-cancel-out", f.clause, detail);
+            let key = format!("{}{}:intermediate-changes-cancel-out", f.clause, detail);
+            self.record_witness(&key, &zone, &msg);
+            return key;
         }
-        format!("{}{}:{}", f.clause, detail, render(&zone, &msg, zone.serial().unwrap_or(0)))
+        let key = format!("{}{}:{}", f.clause, detail, render(&zone, &msg, zone.serial().unwrap_or(0)));
+        self.record_witness(&key, &zone, &msg);
+        key
     }
 }
 
